@@ -78,6 +78,7 @@ class FileSet:
         self.md, self.raw, self.cplx = md, raw, cplx      # cplx: raw samples are complex numbers
         self._reader = None
         self._whole = None
+        self.light = False         # a variant of another set: smaller histories
         self.memory = False        # pure-Python BaseReader subclass, no baseband underneath
         self.assigned = None       # (rate factor, start shift in s): metadata assigned through the public setters
 
@@ -205,6 +206,12 @@ class MemoryReader(pbr.BaseReader):
 LEAP_START = Time("2016-12-31T23:59:50", format="isot", precision=9)     # 23:59:60 exists ten seconds later
 
 
+def _numbered(pattern):
+    """the files of a sequence in the order of their sequence numbers (which need not be zero-padded)"""
+    import re
+    return sorted(glob.glob(pattern), key=lambda p: int(re.findall(r"(\d+)\.[a-z]+$", p)[0]))
+
+
 def _ramp_k(L, A, B):
     i = np.arange(L).reshape(L, 1, 1)
     return (i * A + np.arange(A).reshape(1, A, 1)) * B + np.arange(B).reshape(1, 1, B)
@@ -316,14 +323,75 @@ def write_all(d):
         hdr = dada.DADAHeader.fromvalues(time=T0, offset=0 * u.s, npol=1, nchan=4, bps=8, complex_data=False,
                                          sample_rate=2 * u.MHz, samples_per_frame=spf, sideband=True)
         hdr["FREQ"] = 1400.0
-        with dada.open(os.path.join(d, key + "_{frame_nr:02d}.dada"), "ws", header0=hdr, squeeze=False) as fw:
+        with dada.open(os.path.join(d, key + ".{frame_nr}.dada"), "ws", header0=hdr, squeeze=False) as fw:
             fw.write(data)
-        names = sorted(glob.glob(os.path.join(d, key + "_*.dada")))
+        names = _numbered(os.path.join(d, key + ".*.dada"))          # reallong.0.dada ... reallong.16.dada, in sequence order
         for sfx, lsb in (("", False), ("_lsb", True)):
             fs[key + sfx] = FileSet(key + sfx, "plain", True, lsb, spf, 1, nf, 1, 4, "int8", "ramp" if key == "realodd" else "direct", names,
                                     {"format": "dada", "squeeze": False},
                                     lambda names=names, lsb=lsb: pbr.BasebandReader(names, format="dada", squeeze=False, lower_sideband=lsb),
                                     raw=data, md=256, cplx=False)
+    # a GUPPI scan of twelve files with un-padded sequence numbers (scan.10 sorts before scan.2 as text): the list is
+    # handed over in sequence order
+    data = _ramp("int8", 96, 2, 4, True)
+    hdr = guppi.GUPPIHeader.fromvalues(time=T0, sample_rate=1 * u.kHz, samples_per_frame=8, overlap=0, npol=2, nchan=4, bps=8,
+                                       complex_data=True, sideband=True, channels_first=True, pktsize=64)
+    hdr["OBSFREQ"] = 344.25
+    hdr["FD_POLN"] = "LIN"
+    with guppi.open(os.path.join(d, "scan.{file_nr}.raw"), "ws", header0=hdr, frames_per_file=1, squeeze=False) as fw:
+        fw.write(data)
+    names = _numbered(os.path.join(d, "scan.*.raw"))
+    assert len(names) == 12
+    fs["guppimany"] = FileSet("guppimany", "guppi", False, False, 8, 1, 12, 2, 4, "int8", "ramp", names, {"format": "guppi", "squeeze": False},
+                              lambda names=names: pbr.GUPPIRawReader(list(names)), raw=data)
+    # argument objects the caller keeps using: the per-element sideband flags are passed as a bool ndarray, an int
+    # ndarray or a list; after construction the caller flips the SAME object in place and builds a second reader from
+    # it, then overwrites it once more.  Each reader must keep the flags it was constructed with.
+    vfn = os.path.join(d, "vdifc.vdif")
+    for kind in ("bool", "int", "list"):
+        pair = {}
+
+        def build(kind=kind, pair=pair):
+            if "first" in pair:
+                return
+            m0 = [[True, False]]
+            arg = np.array(m0, dtype=bool) if kind == "bool" else (np.array(m0, dtype=np.int64) if kind == "int" else [list(x) for x in m0])
+            r1 = pbr.BasebandReader(vfn, squeeze=False, format="vdif", lower_sideband=arg)
+            before = np.array(r1.read(3, 5).data)
+            lazy = r1.dask_read(2, 6)
+            before26 = np.array(r1.read(2, 6).data)
+
+            def flip():
+                if isinstance(arg, np.ndarray):
+                    arg[...] = (~arg if arg.dtype == bool else 1 - arg)
+                else:
+                    arg[0][0], arg[0][1] = arg[0][1], arg[0][0]
+            flip()
+            r2 = pbr.BasebandReader(vfn, squeeze=False, format="vdif", lower_sideband=arg)
+            r1._verif_flags = {"read_unchanged_after_caller_modified_the_mask_object": bool(np.array_equal(before, np.asarray(r1.read(3, 5).data))),
+                               "lazy_read_made_before_computes_the_same": bool(np.array_equal(before26, lazy.data.compute()))}
+            before2 = np.array(r2.read(3, 5).data)
+            if isinstance(arg, np.ndarray):
+                arg[...] = 1
+            else:
+                arg[0][0] = arg[0][1] = True
+            r2._verif_flags = {"read_unchanged_after_caller_modified_the_mask_object": bool(np.array_equal(before2, np.asarray(r2.read(3, 5).data)))}
+            if kind != "bool":
+                r1._verif_flags["second_reader_" + "read_unchanged_after_caller_modified_the_mask_object"] = \
+                    r2._verif_flags["read_unchanged_after_caller_modified_the_mask_object"]
+            pair["first"], pair["second"] = r1, r2
+
+        def get(which, build=build, pair=pair):
+            build()
+            return pair[which]
+        cdata = _ramp("vdif8", 128, 1, 2, True)
+        for which, mask in (("first", [[True, False]]), ("second", [[False, True]])):
+            if which == "second" and kind != "bool":
+                continue          # (the second reader of the int / list objects is still built and checked through its flags)
+            k = "vdifc_maskobj_%s_%s" % (kind, which)
+            fs[k] = FileSet(k, "plain", False, False, 16, 8, 1, 1, 2, "vdif8", "ramp", vfn, {"squeeze": False},
+                            lambda which=which, get=get: get(which), mask=mask, raw=cdata)
+            fs[k].light = True
     # readers whose metadata was assigned after construction
     for k in ("vdifr", "guppil", "stokesl", "memory", "dadaleap"):
         v = fs[k].by_assignment(3 if k != "dadaleap" else 2, 7 if k != "dadaleap" else 3)
